@@ -713,40 +713,43 @@ def d9_param_staging(db, rep, rule="D9-PARAM-STAGING"):
         a = c.args()
         if len(a) < 3:
             continue
-        v = a[2]
-        top = strip_casts(v)
-        if top is not None and top.k == "BinaryOperator" and top.op == "|":
-            continue                                    # two halves assembled: widening rule
-        if top is not None and top.k == "DeclRefExpr" and top.get("dk") == "local":
-            # the value is prepared in a local: judge its definition, unless an OR of the high half is applied on every path
-            from flow import reaching_defs
-            ors = [x for x in ee.walk() if x.k == "CompoundAssignOperator" and x.op == "|=" and access_path(x.c[0]) == top.name]
-            if any(ee.dominates(o, c) for o in ors):
-                continue
-            ds = reaching_defs(ee, top.name, c)
-            if len(ds) == 1:
-                v = ds[0].c[1] if ds[0].k == "BinaryOperator" else ds[0].c[0]
-                top = strip_casts(v)
-                if top is not None and top.k == "BinaryOperator" and top.op == "|":
-                    continue
-        src = [x for x in v.walk() if x.k == "ArraySubscriptExpr" and (access_path(x.c[0]) or "").endswith("->params")]
-        if not src:
-            continue
-        n += 1
-        bad = None
-        x = src[0]
-        while x is not None and x is not v.parent:
-            if x.k == "CStyleCastExpr":
-                t = INT_TYPES.get((x.get("toty") or "").replace("const ", "").strip())
-                if t is not None and not t[1] and t[0] < 64:
-                    bad = x.get("toty")
-            if x is v:
-                break
-            x = x.parent
-        rep.check(bad is None, rule, where(ee), "load_constant(%s)" % unparse(v)[:50],
-                  "the int parameter slot reaches the 64-bit staging value by sign extension",
-                  "orc_executor_emulate stages a 4-byte parameter through `(%s)`: a negative run-time offset or start position is zero-extended to "
-                  "about +2^32 and loadoffX / ldresnearX / ldreslinX, which use it as a signed element index, read gigabytes past the source array" % bad, line=c.line)
+        # every expression that flows into the staged value: the argument itself and, through the function's locals, the
+        # definitions that can reach the call (a value prepared in a local, scaled, passed on ...)
+        from flow import reaching_defs
+        roots, todo, seenl = [], [a[2]], set()
+        while todo:
+            e = todo.pop()
+            top = strip_casts(e)
+            if top is not None and top.k == "BinaryOperator" and top.op == "|":
+                continue                                    # two halves assembled: widening rule (C02 D4)
+            roots.append(e)
+            for y in e.walk():
+                if y.k == "DeclRefExpr" and y.get("dk") == "local" and y.name not in seenl:
+                    seenl.add(y.name)
+                    ors = [x for x in ee.walk() if x.k == "CompoundAssignOperator" and x.op == "|=" and access_path(x.c[0]) == y.name]
+                    if any(ee.dominates(o, c) for o in ors):
+                        continue                            # the high half is OR-ed in on every path: widening rule
+                    for d in reaching_defs(ee, y.name, c):
+                        rhs = d.c[1] if d.k == "BinaryOperator" else (d.c[0] if d.c else None)
+                        if rhs is not None:
+                            todo.append(rhs)
+        for v in roots:
+            for x0 in [x for x in v.walk() if x.k == "ArraySubscriptExpr" and (access_path(x.c[0]) or "").endswith("->params")]:
+                n += 1
+                bad = None
+                x = x0
+                while x is not None and x is not v.parent:
+                    if x.k == "CStyleCastExpr":
+                        t = INT_TYPES.get((x.get("toty") or "").replace("const ", "").strip())
+                        if t is not None and not t[1] and t[0] < 64:
+                            bad = x.get("toty")
+                    if x is v:
+                        break
+                    x = x.parent
+                rep.check(bad is None, rule, where(ee), "load_constant(%s)" % unparse(v)[:50],
+                          "the int parameter slot reaches the 64-bit staging value by sign extension",
+                          "orc_executor_emulate stages a 4-byte parameter through `(%s)`: a negative run-time offset or start position is zero-extended to "
+                          "about +2^32 and loadoffX / ldresnearX / ldreslinX, which use it as a signed element index, read gigabytes past the source array" % bad, line=c.line)
     if n < 1:
         raise AnalysisBroken("orc_executor_emulate: staging of 4-byte parameters (load_constant (.., 8, ex->params[..])) not found")
 
